@@ -107,9 +107,12 @@ CLAIMED['C02'] = ('other',
     'must hand back the identical string (identity of cells, not equality of shapes), with at least one returning path; the first and '
     'last character class of every result exclude whitespace. Because validate is deterministic this is validate(validate(x)) == '
     'validate(x) for every accepted x, including presentations no test lists. 4 modules fail today (ch.ssn, fr.tva, no.kontonr, '
-    'no.mva) and are listed with their inputs.',
+    'no.mva) and are listed with their inputs. Two structural clauses for modules the identity analysis cannot follow: where validate() '
+    'replaces a part by a table lookup through a key function every table value is a fixed point of that lookup '
+    '(de.handelsregisternummer), and beside a module\'s own calc_check_digit(s)() no other function attaches a check character computed '
+    'by a generic algorithm in another way (sibling rule with an inline positive example).',
     'Trusted: as C01; determinism from C13. Undecided (sa/scope.py): modules whose compact() rebuilds the string (cr.cpf, tn.mf, mac, '
-    'isan, meid, gs1_128, de.handelsregisternummer, nl.postcode) and the dispatching aggregates (eu.vat, vatin, us.tin). Non-ASCII '
+    'isan, meid, gs1_128, de.handelsregisternummer, cz.bankaccount, nz.bankaccount, ro.onrc, nl.postcode) and the dispatching aggregates (eu.vat, vatin, us.tin). Non-ASCII '
     'results are left to C15.',
     'abstract interpretation with string-identity tracking (validate re-applied to its abstract results)',
     'DESIGN.md section C02')
@@ -121,10 +124,12 @@ CLAIMED['C18'] = ('other',
     'html.escape() arguments are strings; both start_response() calls carry the literal 200 OK with the content type of their mode and '
     'no raise lies on the request path; the query is read with defaults, parse_qs() without limits that raise, the first value only '
     'under its membership guard; the result list is exactly get_number_modules() filtered by is_valid(); conversions run inside '
-    '`except Exception`; the template uses exactly the keys passed. These hold for every query string, mode and request sequence '
-    '(state: C13 covers the script as well).',
-    'Trusted: html.escape and parse_qs semantics; template.html as markup. Availability of is_valid/format/compact on every input is '
-    'C01/C04. A genuine defect found by this rule (html.escape() of non-string conversions) was repaired in /repo (44a32d5).',
+    '`except Exception`; the template uses exactly the keys passed; since is_valid() of every module is called without a handler, '
+    'the C01 obligations (no foreign exception escapes validate()/is_valid()) are re-decided on the library source and any failure that '
+    'is not a known finding of C01 is reported as a server error of the page. These hold for every query string, mode and request '
+    'sequence (state: C13 covers the script as well).',
+    'Trusted: html.escape and parse_qs semantics; template.html as markup. Availability of format/compact on accepted numbers is '
+    'C04. A genuine defect found by this rule (html.escape() of non-string conversions) was repaired in /repo (44a32d5).',
     'taint / typestate rules over the WSGI script AST',
     'DESIGN.md section C18')
 
@@ -217,7 +222,7 @@ CLAIMED['C07'] = ('other',
     'check digit generators (ISBN-10, EAN/GTIN 8/12/13/14, ISSN, IMO, CAS, SEDOL) are reduced to weighted-sum normal form (modulus, '
     'weights with the check weight normalised to 1, residue table, character values) and compared with the transcribed scheme; '
     'delegating formats (ISBN-13, ISMN, IMEI, ISNI, LEI, IBAN, ISO 11649, GRid) hand every position to the named algorithm in the '
-    'transcribed rearrangement; (4) value alphabets (ISIN, CUSIP, Base58, Bech32) equal the transcribed order. Equality of the full '
+    'transcribed rearrangement, and the algorithm module itself passes the C06 obligations; (4) value alphabets (ISIN, CUSIP, Base58, Bech32) equal the transcribed order. Equality of the full '
     'accept sets, the digit-sum arithmetic of ISIN/CUSIP/FIGI and Bitcoin hashing are not decided.',
     'Trusted: the transcription; sa/strabs models; C06 for the generic algorithms. Known findings: LEI has no length/alphabet gate, '
     'ISNI and ISO 11649 admit non-ASCII digits.',
